@@ -166,13 +166,76 @@ def rule_composition(ctx, rule):
     return not probs
 
 
+def rule_prim(ctx, rule, which=("prop", "detached")):
+    """semantics of the framework primitives that every other analysis (and every layer) assumes, by abstract execution:
+    prop   YowStack.getProp returns the stored value whenever the key is present - also when that value is falsy
+           (False, 0, '') - and the default only when it is absent; YowLayer.getProp/setProp delegate to the stack
+    detached   YowStack.execDetached never runs the callback on the caller's thread: it only queues it for loop()"""
+    from ..absint import Interp, Obj, _Raise, C_NONE, flat_effects
+    repo = ctx.repo
+    st = repo.cls(YS, "YowStack")
+    if "prop" in which:
+        gp = st.methods.get("getProp")
+        w = where(YS, "YowStack.getProp", getattr(gp, "lineno", None))
+        bad = []
+        n = 0
+        for stored in (("c", False), ("c", 0), ("c", ""), ("c", None), ("c", "x"), None):
+            it = Interp(repo, {}, {}, hooks={})
+            o = Obj(st)
+            o.fields["_props"] = ("dict", {} if stored is None else {"k": stored})
+            try:
+                r = it.call_function(gp, st, ("obj", o), [("c", "k"), ("c", "DEFAULT")], {}, depth=0)
+            except Exception as e:
+                bad.append("not evaluated (%s)" % type(e).__name__)
+                continue
+            n += 1
+            want = ("c", "DEFAULT") if stored is None else stored
+            if r != want:
+                bad.append("with %s stored it returns %r" % ("nothing" if stored is None else repr(stored[1]), r[1] if r[0] == "c" else r[0]))
+        ctx.check(rule, not bad and n == 6, w, "getProp(key, default) over stored values False / 0 / '' / None / 'x' / absent",
+                  "; ".join(bad[:3]) + ": a property explicitly set to a falsy value (reconnect off, ping interval 0, segmentation off) is ignored and the caller's default used instead",
+                  "stored value whenever the key is present, default only when absent")
+        lay = repo.cls(LAYERS, "YowLayer")
+        for name, nargs in (("getProp", 2), ("setProp", 2)):
+            fn = lay.methods.get(name)
+            ok = fn is not None and any(isinstance(c, ast.Call) and isinstance(c.func, ast.Attribute) and c.func.attr == name and "getStack" in unparse(c.func.value) and len(c.args) == nargs
+                                        and [unparse(a) for a in c.args] == params_of(fn) for c in ast.walk(fn))
+            ctx.check(rule, ok, where(LAYERS, "YowLayer." + name, getattr(fn, "lineno", None)), "YowLayer.%s delegates to the stack" % name,
+                      "the layer's %s must hand both arguments to its stack's %s" % (name, name), "delegates with both arguments")
+    if "detached" in which:
+        ed = st.methods.get("execDetached")
+        w = where(YS, "YowStack.execDetached", getattr(ed, "lineno", None))
+        ran = []
+        it = Interp(repo, {}, {}, hooks={})
+        o = Obj(st)
+        cb = ("closure", ast.parse("def cb():\n    return 1").body[0], {}, None, None)
+        it.hooks["closure_called"] = None
+        raised = None
+        try:
+            # a callback that records being called: a closure whose body performs an observable external call
+            fn_ast = ast.parse("def cb():\n    marker.ran()").body[0]
+            env = {"marker": ("ext", "marker", [])}
+            it.call_function(ed, st, ("obj", o), [("closure", fn_ast, env, None, None)], {}, depth=0)
+        except _Raise as r_:
+            raised = r_.text
+        except Exception as e:
+            raised = "not evaluated (%s)" % type(e).__name__
+        ran = [e for e in flat_effects(it.effects) if e[0] == "CALL" and e[1] == "marker.ran"]
+        puts = [e for e in flat_effects(it.effects) if e[0] == "CALL" and e[1].endswith(".put")]
+        ctx.check(rule, raised is None and not ran and len(puts) == 1, w, "execDetached(fn) only queues fn",
+                  "execDetached %s: a detached event raised from inside a send would be handled on the sending thread, under the locks it holds" % ("runs the callback itself" if ran else ("does not queue it (%s)" % raised)),
+                  "queued for loop(), never run by the caller")
+
+
 def rule_state(ctx):
     """event callback tables, locks and neighbour links are per layer instance"""
     from ..state import per_instance_state
     n = 0
-    for cn in ("YowLayer", "YowParallelLayer"):
-        n += per_instance_state(ctx, "C18.state", ctx.repo.cls(LAYERS, cn))
+    from ..state import shared_defaults
+    for rel, cn in ((LAYERS, "YowLayer"), (LAYERS, "YowParallelLayer"), ("yowsup/layers/interface/interface.py", "YowInterfaceLayer"), (YS, "YowStack"), (YS, "YowStackBuilder")):
+        n += per_instance_state(ctx, "C18.state", ctx.repo.cls(rel, cn))
     ctx.units["C18.state_attrs"] = n
+    ctx.units["C18.defaults_examined"] = shared_defaults(ctx, "C18.state", ["yowsup/stacks/", "yowsup/layers/__init__.py", "yowsup/layers/interface/"])
 
 
 def rule_wire(ctx):
@@ -494,6 +557,7 @@ def run(ctx):
     ctx.rule("C18.mirror", "emit/broadcast siblings mirror each other", floor=4)
     ctx.rule("C18.stop", "stop-on-true, detached deferral, loop", floor=10)
     ctx.rule("C18.par", "group method substitution and interface lookup", floor=8)
+    ctx.rule("C18.prim", "getProp / setProp / execDetached semantics by abstract execution", floor=4)
     ctx.rule("C18.state", "event-callback tables (every attribute a layer mutates in place) are bound per instance to a fresh object", floor=1)
     ctx.guarded("C18.bind", rule_bind, ctx)
     ctx.guarded("C18.composition", rule_composition, ctx, "C18.flags")
@@ -503,3 +567,4 @@ def run(ctx):
     ctx.guarded("C18.stop", rule_stop, ctx)
     ctx.guarded("C18.par", rule_par, ctx)
     ctx.guarded("C18.state", rule_state, ctx)
+    ctx.guarded("C18.prim", rule_prim, ctx, "C18.prim")
